@@ -11,7 +11,9 @@ What is mirrored, statement by statement:
 
 * ordering of the servers (`UserProvidedOrder`, `RoundRobin` with the `next` counter, `QueryStatistics`
   as a stable sort on an SRTT rank that is a parameter),
-* the `loop` of `try_send`: deadline test at the top of every round (and nowhere else), batches of
+* the `loop` of `try_send`: deadline test at the top of every round and — since fix 92faead — a race of
+  every wait for a reply against the remaining budget (the pre-fix loop is kept in
+  `Model/PoolPreFix.lean` for the regression example), batches of
   `max(num_concurrent_reqs, 1)` servers allowed by the protocol policy (servers the policy excludes
   are popped and dropped), all requests of a batch sent with the policy value of the batch start,
   replies handled in completion order, truncated reply ⇒ `disable_udp`, error "truncated", server
@@ -264,20 +266,29 @@ def processEvent (cfg : Cfg) (st : PState) (ev : Event) : PState × Option Res :
   | some .sf => (st, some (.err .rcode))
   | some .rf => (st, some (.err .rcode))
 
-def processEvents (cfg : Cfg) : PState → List Event → PState × Option Res
+/-- `while let Some((server, result)) = { select(requests.next(), Timer::delay_for(remaining)) … }`
+(since fix 92faead): every wait for the next reply of the batch is raced against what is left of the
+deadline.  A reply that arrives by the deadline is handled; when the next reply would arrive later the
+timer wins, the requests still in flight are abandoned and `try_send` returns `Timeout` AT the deadline. -/
+def processEvents (cfg : Cfg) (deadline : Nat) : PState → List Event → PState × Option Res
   | st, [] => (st, none)
   | st, ev :: evs =>
-    match processEvent cfg { st with clock := ev.fin } ev with
-    | (st', some r) => (st', some r)
-    | (st', none) => processEvents cfg st' evs
+    if deadline < ev.fin then ({ st with clock := max st.clock deadline }, some (.err .timeout))
+    else
+      match processEvent cfg { st with clock := ev.fin } ev with
+      | (st', some r) => (st', some r)
+      | (st', none) => processEvents cfg deadline st' evs
 
-/-- the replies `processEvents` never gets to see because an earlier one ended the lookup -/
-def unprocessed (cfg : Cfg) : PState → List Event → List Event
+/-- the replies `processEvents` never gets to see because an earlier one, or the deadline, ended the
+lookup -/
+def unprocessed (cfg : Cfg) (deadline : Nat) : PState → List Event → List Event
   | _, [] => []
   | st, ev :: evs =>
-    match processEvent cfg { st with clock := ev.fin } ev with
-    | (_, some _) => evs
-    | (st', none) => unprocessed cfg st' evs
+    if deadline < ev.fin then ev :: evs
+    else
+      match processEvent cfg { st with clock := ev.fin } ev with
+      | (_, some _) => evs
+      | (st', none) => unprocessed cfg deadline st' evs
 
 /-- returning from `try_send` drops the requests still in flight: their futures are cancelled, the
 connections they opened stay in the server's table -/
@@ -311,9 +322,11 @@ def round (cfg : Cfg) (deadline : Nat) (st : PState) : RoundOut :=
       else .done (.err st.err) st
     else
       let s := sendBatch cfg st.disableUdp st.clock b.1 st.conns
-      let st1 := { st with queue := b.2, conns := s.2.1, log := st.log ++ s.2.2 }
-      match processEvents cfg st1 (sortEvents s.1) with
-      | (st2, some r) => .done r (cancelInFlight st2 (unprocessed cfg st1 (sortEvents s.1)))
+      -- (an exchange after a reconnect is only started if the first one ended by the deadline)
+      let st1 := { st with queue := b.2, conns := s.2.1,
+                           log := st.log ++ s.2.2.filter (fun e => e.2.start ≤ deadline) }
+      match processEvents cfg deadline st1 (sortEvents s.1) with
+      | (st2, some r) => .done r (cancelInFlight st2 (unprocessed cfg deadline st1 (sortEvents s.1)))
       | (st2, none) => .next st2
 
 /-- the loop, with an explicit bound on the number of rounds (`none` = bound exhausted; `terminates`
